@@ -203,6 +203,23 @@ def run_shard(shard, out_base):
     pool = build_pool(S, rng, SIZES[shard["tier"]]["pool"])
     part, parts = shard["part"], shard["parts"]
     mon.notes["pool_size"] = len(pool)
+    if part == 0:
+        # what a class was asked to construct is an object of exactly that class, whatever else is alive in the
+        # process (instances of user subclasses with the same value are)
+        want_cls = {"IBAN": S.IBAN, "BIC": S.BIC, "BBAN": S.BBAN, "IBAN_unvalidated": S.IBAN, "BIC_unvalidated": S.BIC}
+        for la, a in pool:
+            if la in want_cls and type(a) is not want_cls[la]:
+                mon.viol(f"constructor_returned_object_of_another_class:{la}", {"object": [la, esc(str(a))]}, want_cls[la].__name__, type(a).__name__)
+        alive = [o for la, o in pool if la.endswith("_subclass")]
+        for sub_obj in alive:
+            base = next(c for c in (S.IBAN, S.BIC, S.BBAN) if isinstance(sub_obj, c))
+            args = (sub_obj.country_code, str(sub_obj)) if base is S.BBAN else (str(sub_obj),)
+            for name, f_ in (("construct", lambda: base(*args)), ("copy_of_plain", lambda: copy.copy(base(*args))), ("deepcopy_of_plain", lambda: copy.deepcopy([base(*args)])[0]), ("pickle_of_plain", lambda: pickle.loads(pickle.dumps(base(*args), 4)))):
+                o = observe(f_)
+                mon.ev()
+                mon.tally("plain_objects_next_to_live_subclass_instances")
+                if o.ok and type(o.value) is not base:
+                    mon.viol(f"plain_object_turns_into_live_subclass_instance:{name}", {"value": esc(str(sub_obj)), "live_subclass": type(sub_obj).__name__}, base.__name__, type(o.value).__name__)
     for i, (la, a) in enumerate(pool):
         if i % parts != part:
             continue
